@@ -20,7 +20,13 @@ Inductive vres :=
        (paths : list (list nat)).
 
 Inductive c10_case :=
-| CV (H W : nat) (vops : list vop) (glyphs : bool) (cwt : list (N * nat)) (ph pw : N) (c : ct) (v : vtree) (impl : vres).
+(* FindPath on a layout tree built by hand through the public tree API (siblings may overlap, positions
+   and sizes may be huge): the paths found for every position of a 13 x 13 grid *)
+| CF (t : ltree) (paths : list (list nat))
+| CV (exact : bool) (H W : nat) (vops : list vop) (glyphs : bool) (cwt : list (N * nat)) (ph pw : N) (c : ct) (v : vtree)
+     (impl : vres).
+(* exact = false: the tree has flex factors whose f64 arithmetic the model does not reproduce (non-dyadic or
+   extreme ratios); such a case is judged by the property predicate alone *)
 
 (* ---------- equality of observations ---------- *)
 Definition ct_eqb (a b : ct) : bool :=
@@ -31,6 +37,7 @@ Definition ldata_eqb (a b : ldata) : bool :=
   | DNone, DNone => true
   | DTag x, DTag y => x =? y
   | DCt x, DCt y => ct_eqb x y
+  | DRef, DRef => true
   | _, _ => false
   end.
 
@@ -88,9 +95,10 @@ Definition within (c : ct) (h w : N) : bool :=
   (c_minh c <=? h) && (h <=? c_maxh c) && (c_minw c <=? w) && (w <=? c_maxw c).
 
 (* kinds whose size the property claims to lie within the constraint:
-   text 1, str 2, flex 3, container 4, fill 10, unit 11, image 12, glyph 13, probe 14 *)
+   text 1, str 2, flex 3, container 4, fill 10, unit 11, image 12, glyph 13, probe 14, surface 15, image_ascii 16 *)
 Definition claimed (k : N) : bool :=
-  (k =? 1) || (k =? 2) || (k =? 3) || (k =? 4) || (k =? 10) || (k =? 11) || (k =? 12) || (k =? 13) || (k =? 14).
+  (k =? 1) || (k =? 2) || (k =? 3) || (k =? 4) || (k =? 10) || (k =? 11) || (k =? 12) || (k =? 13) || (k =? 14)
+  || (k =? 15) || (k =? 16).
 
 Fixpoint vkind (c : ct) (v : vtree) : N :=
   match v with
@@ -98,6 +106,7 @@ Fixpoint vkind (c : ct) (v : vtree) : N :=
   | VFrame _ _ => 5 | VScrollBar _ _ _ _ _ => 6 | VTag _ _ => 7 | VNone => 8
   | VDynamic b => vkind c (b c)
   | VFill _ => 10 | VUnit => 11 | VImage _ _ _ => 12 | VGlyph _ _ _ _ => 13 | VProbe _ _ _ => 14
+  | VSurface _ _ _ => 15 | VImageAscii _ _ _ => 16 | VRef _ => 17
   end.
 
 (* rectangles in the coordinates of the surface handed to the root *)
@@ -137,6 +146,11 @@ Fixpoint expect (glyphs : bool) (v : vtree) (t : ltree) (cur : rect) (path : lis
   | VDynamic build =>
       match l_data t, l_kids t with
       | DCt c, k :: _ => expect glyphs (build c) k (rect_apply cur t) (path ++ [0%nat])
+      | _, _ => []
+      end
+  | VRef (Some v') =>
+      match l_data t, l_kids t with
+      | DRef, k :: _ => expect glyphs v' k (rect_apply cur t) (path ++ [0%nat])
       | _, _ => []
       end
   | _ => []
@@ -213,11 +227,39 @@ Definition holds_v (H W : nat) (vops : list vop) (glyphs : bool) (c : ct) (v : v
                     end) (seq 0 (H * W))
   end.
 
+(* specification of hit-testing: at every level the path takes the FIRST child whose rectangle contains
+   the (relative) position, and it ends where no child contains it *)
+Definition contains_b (k : ltree) (r c : N) : bool :=
+  (l_col k <=? c) && (c <? N.min (l_col k + l_ww k) (UMAX + 1)) && (l_row k <=? r) && (r <? N.min (l_row k + l_hh k) (UMAX + 1)).
+
+Fixpoint follows_b (fuel : nat) (t : ltree) (r c : N) (path : list nat) : bool :=
+  match fuel with
+  | O => false
+  | S f =>
+      match path with
+      | [] => forallb (fun k => negb (contains_b k r c)) (l_kids t)
+      | i :: rest =>
+          forallb (fun k => negb (contains_b k r c)) (firstn i (l_kids t))
+          && match nth_error (l_kids t) i with
+             | Some k => contains_b k r c && follows_b f k (r - l_row k) (c - l_col k) rest
+             | None => false
+             end
+      end
+  end.
+
+Definition fgrid : list (N * N) :=
+  flat_map (fun r => map (fun c => (N.of_nat r, N.of_nat c)) (seq 0 13)) (seq 0 13).
+
 Definition c10_check (cs : c10_case) : bool * bool :=
   match cs with
-  | CV H W vops glyphs cwt ph pw c v impl =>
+  | CF t paths =>
+      ( paths_eqb (map (fun q => find_path (depth t) t (fst q) (snd q)) fgrid) paths,
+        (length paths =? length fgrid)%nat
+        && forallb (fun qp : (N * N) * list nat => follows_b (S (depth t)) t (fst (fst qp)) (snd (fst qp)) (snd qp))
+                   (combine fgrid paths) )
+  | CV exact H W vops glyphs cwt ph pw c v impl =>
       let vc := mkV (mkCtx glyphs cwt dfa0 []) ph pw in
-      (vres_eqb (model_v H W vops vc c v) impl, holds_v H W vops glyphs c v impl)
+      ((if exact then vres_eqb (model_v H W vops vc c v) impl else true), holds_v H W vops glyphs c v impl)
   end.
 
 Definition c10_report := report c10_check.
